@@ -172,6 +172,29 @@ func New() *State {
 	return s
 }
 
+// FromAccounts returns a fresh state (no logs, transient storage, access list or
+// snapshots) whose accounts are deep copies of the given ones: the view a newly
+// opened state has of a committed world.
+func FromAccounts(accts map[Addr]*Account) *State {
+	s := New()
+	for a, acc := range accts {
+		c := acc.copy()
+		c.SelfDestructed, c.NewContract = false, false
+		s.cur.accounts[a] = c
+		s.txStart[a] = c.copy()
+	}
+	return s
+}
+
+// CopyAccounts deep-copies an account map.
+func CopyAccounts(accts map[Addr]*Account) map[Addr]*Account {
+	out := make(map[Addr]*Account, len(accts))
+	for a, acc := range accts {
+		out[a] = acc.copy()
+	}
+	return out
+}
+
 // Copy returns a fully independent deep copy (including live snapshots).
 func (s *State) Copy() *State {
 	c := &State{cur: s.cur.copy(), txStart: make(map[Addr]*Account, len(s.txStart)), ripemdTouched: s.ripemdTouched,
